@@ -360,7 +360,10 @@ def stream_fncall(ck, model_ok, stdsql):
                 args = [leaves[i % 3] for i in range(n)]
                 args[pos] = ch
                 cases.append((nm, pos, ch, args))
-
+    if not ck.thorough:
+        # quick tier: all text.* positions (the LIKE templates live there), a seed-dependent third of the math.* ones
+        keep = [nm for nm in names if nm.startswith("math.")][ck.seed % 3::3]
+        cases = [c for c in cases if c[0].startswith("text.") or c[0] in keep]
     def arg_src(t):
         s = G.prql(t)
         return s if t[0] == "col" or (t[0] == "lit" and not s.startswith("-")) else "(" + s + ")"
@@ -406,7 +409,7 @@ def stream_fncall(ck, model_ok, stdsql):
                 continue
             mk = model[k][di] if model[k] is not None else None
             mt = M.codes_text(mk[0]) if mk is not None else None
-            bad = Q.triples_py(mk[2]) if mk is not None else None
+            bad = Q.triples_py((mk[1], [])) if mk is not None else None
             case = {"stream": "fncall", "dialect": dialect, "src": "from t | select {v = %s}" % srcs[k], "fn": nm, "position": pos,
                     "param": t["params"][pos], "child": G.prql(ch), "sql": got[0], "model_sql": mt, "bad_triples": bad}
             ck.count("fncall", dialect + "|" + srcs[k], nontrivial=True)
